@@ -161,9 +161,24 @@ class Cases:
         return len(self.lines)
 
 
+def compact(o):
+    """keep memory bounded for 10^5..10^6 cases: the input as bytes, the run classes TLC evaluates (see project), the number of
+    runs, the cuts of the first run (for samples) and, in full, only the runs that deviate from the one-shot outcome
+    (needed for the witness text and class; TLC decides on the classes, which cover every run)."""
+    T = o['tuples']
+    one = T[o['one']]
+    runs = o['runs']
+    o['in'] = bytes(o['in'])
+    o['nruns'] = len(runs)
+    o['first_cuts'] = runs[0]['cuts'][:8] if runs else []
+    o['classes'] = sorted({(tuple(sorted(set(r['mid']))), r['fin']) for r in runs})
+    o['runs'] = [r for r in runs if any(T[m]['o'] != 'more' for m in r['mid']) or not same(T[r['fin']], one)]
+    return o
+
+
 def _run_part(exe, lines, timeout):
     r = vlib.run_driver(exe, '\n'.join(lines) + '\n', timeout=timeout)
-    outs = [json.loads(l) for l in r.stdout.splitlines() if l.startswith('{')]
+    outs = [compact(json.loads(l)) for l in r.stdout.splitlines() if l.startswith('{')]
     if len(outs) != len(lines):
         # an ASan report kills the driver: the case being evaluated is the first unanswered one
         bad = lines[len(outs)] if len(outs) < len(lines) else '?'
@@ -186,15 +201,9 @@ def run_cases(ctx, exe, cases, timeout=1500, procs=3):
 
 def project(o):
     """what TLC evaluates: runs are grouped by outcome class (set of tuple indices answered before the last call, index of
-    the last answer); every run of the case belongs to exactly one class and `rc` lists every class that occurred"""
-    classes = sorted({(tuple(sorted(set(r['mid']))), r['fin']) for r in o['runs']})
-    return {'k': o['k'], 'in': o['in'], 'relaxed': o['relaxed'], 'limit': o['limit'], 'one': o['one'], 'tuples': o['tuples'],
-            'runs': [{'mid': list(m), 'fin': f} for m, f in classes], 'ub': o['ub']}
-
-
-def runs_of_class(o, cls):
-    m, f = tuple(cls['mid']), cls['fin']
-    return [r for r in o['runs'] if tuple(sorted(set(r['mid']))) == m and r['fin'] == f]
+    the last answer); every run of the case belongs to exactly one class and `runs` lists every class that occurred"""
+    return {'k': o['k'], 'in': list(o['in']), 'relaxed': o['relaxed'], 'limit': o['limit'], 'one': o['one'], 'tuples': o['tuples'],
+            'runs': [{'mid': list(m), 'fin': f} for m, f in o['classes']], 'ub': o['ub']}
 
 
 def tuple_text(t):
@@ -217,7 +226,7 @@ def same(a, b):
 
 
 def bad_run(o):
-    """first run whose outcome is not the one-shot outcome or that decided before its last call"""
+    """first run whose outcome is not the one-shot outcome or that decided before its last call (o['runs'] holds only such runs)"""
     T = o['tuples']
     for r in o['runs']:
         if any(T[m]['o'] != 'more' for m in r['mid']) or not same(T[r['fin']], T[o['one']]):
